@@ -152,6 +152,29 @@ func hasAtom(atoms []Atom, pred func(Atom) bool) bool {
 		if pred(a) {
 			return true
 		}
+		// a comparison also counts in its complementary spelling: !(x != y) is x == y, !(n < k) is n >= k. Rules ask for
+		// one spelling; which one the source uses (an early `if x != y { return }` or an enclosing `if x == y {`) does
+		// not matter
+		if b, ok := ast.Unparen(a.E).(*ast.BinaryExpr); ok {
+			var flip token.Token
+			switch b.Op {
+			case token.EQL:
+				flip = token.NEQ
+			case token.NEQ:
+				flip = token.EQL
+			case token.LSS:
+				flip = token.GEQ
+			case token.GEQ:
+				flip = token.LSS
+			case token.GTR:
+				flip = token.LEQ
+			case token.LEQ:
+				flip = token.GTR
+			}
+			if flip != token.ILLEGAL && pred(Atom{&ast.BinaryExpr{X: b.X, OpPos: b.OpPos, Op: flip, Y: b.Y}, !a.Val}) {
+				return true
+			}
+		}
 	}
 	return false
 }
